@@ -483,6 +483,15 @@ pub struct GenConfig {
     pub rx: Vec<Vec<Rx>>,
 }
 
+impl GenConfig {
+    pub fn has_nullable_pattern(&self) -> bool {
+        self.rx.iter().any(|m| m.iter().any(|r| r.nullable()))
+    }
+    pub fn has_empty_mode(&self) -> bool {
+        self.rx.iter().any(|m| m.is_empty())
+    }
+}
+
 const FANCY_NAMES: &[&str] = &["with space", "Q\"uote", "\u{fc}ml\u{e4}ut", "back\\slash", "semi;colon", "brace{}"];
 
 pub fn gen_config(rng: &mut Rng, al: &Alphabet, k: &Knobs) -> GenConfig {
